@@ -521,16 +521,28 @@ func (x *codecX) readStringPrim(fi *FuncInfo) (bool, error) {
 			if len(mk.lhs) != 1 || mk.lhs[0] != bs || bs == nil || len(mk.call.Args) != 2 || nospace(res.str(mk.call.Args[1])) != nospace(res.str(lenCall)) && nospace(res.str(mk.call.Args[1])) != nospace(L) {
 				return true, cerr(mk.call.Pos(), "%s: the byte slice is not made with the announced length", fi.Key)
 			}
-			fs, isFor := rest[1].stmt.(*ast.ForStmt)
-			if !isFor || fs.Cond == nil || len(fs.Body.List) != 1 {
-				return false, nil
+			var ivar types.Object
+			var loopBody *ast.BlockStmt
+			if rs, isRange := rest[1].stmt.(*ast.RangeStmt); isRange {
+				// for i := range bs {...}: once per element of the slice just made with length L
+				kid, isId := rs.Key.(*ast.Ident)
+				if !isId || rs.Value != nil || rs.Tok != token.DEFINE || objOf(x.info, rs.X) != bs || len(rs.Body.List) != 1 {
+					return false, nil
+				}
+				ivar, loopBody = x.info.Defs[kid], rs.Body
+			} else {
+				fs, isFor := rest[1].stmt.(*ast.ForStmt)
+				if !isFor || fs.Cond == nil || len(fs.Body.List) != 1 {
+					return false, nil
+				}
+				iv, okC := x.simpleCounter(fs)
+				be, isBin := fs.Cond.(*ast.BinaryExpr)
+				if !okC || !isBin || be.Op != token.LSS || objOf(x.info, be.X) != iv || nospace(res.str(be.Y)) != nospace(L) {
+					return true, cerr(fs.Pos(), "%s: the byte loop does not run exactly the announced number of times", fi.Key)
+				}
+				ivar, loopBody = iv, fs.Body
 			}
-			ivar, okC := x.simpleCounter(fs)
-			be, isBin := fs.Cond.(*ast.BinaryExpr)
-			if !okC || !isBin || be.Op != token.LSS || objOf(x.info, be.X) != ivar || nospace(res.str(be.Y)) != nospace(L) {
-				return true, cerr(fs.Pos(), "%s: the byte loop does not run exactly the announced number of times", fi.Key)
-			}
-			la, isAs := fs.Body.List[0].(*ast.AssignStmt)
+			la, isAs := loopBody.List[0].(*ast.AssignStmt)
 			if !isAs || len(la.Lhs) != 1 || len(la.Rhs) != 1 {
 				return false, nil
 			}
